@@ -166,6 +166,9 @@ class XorEncodedFile(io.RawIOBase):
         return self.fh.seek(offset, whence)
 
     def read(self, n=-1):
+        if n == 0:
+            return b""
+        start = self.tell()
         data = b""
         nonce = self.read_nonce()
         while True:
@@ -179,7 +182,10 @@ class XorEncodedFile(io.RawIOBase):
                 break
         if n == -1:
             n = None
-        return data[:n]
+        data = data[:n]
+        # the chunk loop reads whole dwords, leave the position right after the bytes that are returned
+        self.seek(start + len(data))
+        return data
 
 
 @catch_sigpipe
